@@ -10,6 +10,7 @@ import (
 	"reflect"
 	"sort"
 	"strconv"
+	"strings"
 	"time"
 
 	"gopkg.in/src-d/go-git.v4"
@@ -267,6 +268,67 @@ func runCase(c cfg, ops []op) (obs []Sx) {
 	published, _ := facts[api.FactTickSize].(time.Duration)
 	obs = append(obs, T("end", I64(int64(root.TickSize)), I64(int64(published)), B(same), regSx("reg", root.VerifCommits())))
 	return
+}
+
+// tickNs is the tick size the configuration leads to (0 = not positive / not representable).
+func tickNs(cf cfg) int64 {
+	switch cf.kind {
+	case "hours":
+		if cf.v <= 0 || cf.v > 2562047 {
+			return 0
+		}
+		return cf.v * hourNs
+	case "direct":
+		if cf.v == 0 {
+			return 24 * hourNs
+		}
+		if cf.v < 0 {
+			return 0
+		}
+		return cf.v
+	}
+	return 24 * hourNs
+}
+
+// spanOK tells that no commit of the case can be 2^63 ns or more away from the start of tick 0
+// (which is at most one tick size before the first commit): time.Duration does not saturate.
+// Only the -sat streams may go beyond (known finding F17).
+func spanOK(cf cfg, ops []op) bool {
+	d := tickNs(cf)
+	if d == 0 {
+		return true // outside the domain of the formula oracle
+	}
+	first := true
+	var lo, hi int64
+	for _, o := range ops {
+		if o.kind != "c" {
+			continue
+		}
+		if first || o.sec < lo {
+			lo = o.sec
+		}
+		if first || o.sec > hi {
+			hi = o.sec
+		}
+		first = false
+	}
+	if first {
+		return true
+	}
+	const limit = int64(9000000000) // seconds; 2^63 ns = 9.22e9 s
+	span := hi - lo
+	return span >= 0 && span < limit && d/1000000000+2 < limit-span
+}
+
+// emitInRange emits a generated case of a stream that must stay inside the range of time.Duration.
+func emitInRange(c *Config, kind string, gen func() (cfg, []op)) {
+	for try := 0; try < 50; try++ {
+		cf, ops := gen()
+		if spanOK(cf, ops) {
+			emit(c, kind, cf, ops)
+			return
+		}
+	}
 }
 
 func emit(c *Config, kind string, cf cfg, ops []op) {
@@ -612,7 +674,12 @@ func odd(c *Config) (cfg, []op) {
 		if r.Intn(5) != 0 {
 			b.next++
 		}
-		t += pickDelta(c, dsec, false)
+		if d >= 1<<61 {
+			// two such ticks already exceed the range of time.Duration
+			t += r.Int63n(dsec/3) - dsec/8
+		} else {
+			t += pickDelta(c, dsec, false)
+		}
 		if r.Intn(5) == 0 && b.nbr < 4 {
 			b.fork(r.Intn(b.nbr), 1)
 		}
@@ -727,7 +794,12 @@ func main() {
 			for _, o := range f.Args() {
 				ops = append(ops, parseOp(o))
 			}
-			emit(c, "replay", cf, ops)
+			kind := "replay"
+			if k, ok := cs.Field("kind"); ok && len(k.Args()) == 1 && strings.HasSuffix(k.Args()[0].Atom, "-sat") {
+				// a case of a saturating stream stays one (known finding F17 is keyed by the kind)
+				kind = "replay-sat"
+			}
+			emit(c, kind, cf, ops)
 		}
 		return
 	}
@@ -743,32 +815,38 @@ func main() {
 	}
 	pick := func() int64 { return hoursChoices[c.Rng.Intn(len(hoursChoices))] }
 	for i := c.Count(6000, 150000); i > 0; i-- {
-		h := pick()
-		emit(c, "lin", cfg{kind: "hours", v: h}, linear(c, h*3600, 1+c.Rng.Intn(12), false))
+		emitInRange(c, "lin", func() (cfg, []op) {
+			h := pick()
+			return cfg{kind: "hours", v: h}, linear(c, h*3600, 1+c.Rng.Intn(12), false)
+		})
 	}
 	for i := c.Count(3000, 60000); i > 0; i-- {
-		h := pick()
-		emit(c, "linmono", cfg{kind: "hours", v: h}, linear(c, h*3600, 1+c.Rng.Intn(12), true))
+		emitInRange(c, "linmono", func() (cfg, []op) {
+			h := pick()
+			return cfg{kind: "hours", v: h}, linear(c, h*3600, 1+c.Rng.Intn(12), true)
+		})
 	}
 	for i := c.Count(8000, 150000); i > 0; i-- {
-		h := pick()
-		emit(c, "dag", cfg{kind: "hours", v: h}, history(c, h*3600, false, false))
+		emitInRange(c, "dag", func() (cfg, []op) {
+			h := pick()
+			return cfg{kind: "hours", v: h}, history(c, h*3600, false, false)
+		})
 	}
 	for i := c.Count(6000, 100000); i > 0; i-- {
-		h := pick()
-		emit(c, "dagmono", cfg{kind: "hours", v: h}, history(c, h*3600, true, c.Rng.Intn(4) == 0))
+		emitInRange(c, "dagmono", func() (cfg, []op) {
+			h := pick()
+			return cfg{kind: "hours", v: h}, history(c, h*3600, true, c.Rng.Intn(4) == 0)
+		})
 	}
 	for i := c.Count(3000, 50000); i > 0; i-- {
 		cf, ops := saturating(c)
-		emit(c, "sat", cf, ops)
+		emit(c, "far-sat", cf, ops)
 	}
 	for i := c.Count(3000, 50000); i > 0; i-- {
-		cf, ops := odd(c)
-		emit(c, "odd", cf, ops)
+		emitInRange(c, "odd", func() (cfg, []op) { return odd(c) })
 	}
 	for i := c.Count(2000, 40000); i > 0; i-- {
-		cf, ops := malformed(c)
-		emit(c, "malformed", cf, ops)
+		emitInRange(c, "malformed", func() (cfg, []op) { return malformed(c) })
 	}
 	for i := c.Count(3000, 60000); i > 0; i-- {
 		cf, ops := floors(c)
